@@ -1234,7 +1234,15 @@ XalanTransformer::reset()
 
 XalanTransformer::EnsureReset::~EnsureReset()
 {
-    m_transformer.m_stylesheetExecutionContext->reset();
+    // This runs while an exception from the transformation may be
+    // propagating, and reset() can fail, so it must not throw.
+    try
+    {
+        m_transformer.m_stylesheetExecutionContext->reset();
+    }
+    catch(...)
+    {
+    }
 
     m_transformer.reset();
 }
